@@ -1081,7 +1081,7 @@ class EvalMixin:
         if k is None:
             raise OutOfSubset('comprehension with effects (no ordinal)')
         g = e.generators[0]
-        acc = 'acc%d' % k
+        acc = 'acc_%s' % k
         app = ast.Expr(value=ast.Call(func=ast.Attribute(value=ast.Name(id=acc, ctx=ast.Load()), attr='append', ctx=ast.Load()),
                                       args=[e.elt], keywords=[]))
         body = [app]
